@@ -18,6 +18,8 @@ VERIF = os.path.dirname(os.path.dirname(os.path.abspath(__file__)))
 
 QUICK_FILES = ["cubed/tests/test_executor_features.py", "cubed/tests/test_store.py", "cubed/tests/test_optimization.py",
                "cubed/tests/test_rechunk.py"]
+QUICK_FILES_WRITES = ["cubed/tests/test_indexing.py", "cubed/tests/test_store.py", "cubed/tests/test_linalg.py", "cubed/tests/test_rechunk.py",
+                      "cubed/tests/array"]
 THOROUGH_FILES = ["cubed/tests"]
 DESELECT = "not spark and not lithops and not modal and not dask and not beam and not hypothesis"
 
@@ -34,6 +36,17 @@ def record(files, jobs=8, timeout=3000):
     return base, p.returncode, tail[0], p.stdout[-3000:] + p.stderr[-2000:]
 
 
+def write_doc(plan, awrites):
+    """TaskTrace document holding only the zarr-level writes of one computation (no task attribution is possible under the real
+    executors, and none is needed for the per-write clauses C12:BlockShapeMismatch and C05:PartialChunkWrite)."""
+    from checks import seqexec
+    ops = [dict(name=o["name"], nt=o["nt"], computed=o["computed"], outs=[x["name"] for x in o["outs"]]) for o in plan["ops"]]
+    arrays = [dict(name=a["name"], prod=a["prod"] or "", nkeys=-1, decl="", back="", res="", final="", ref="", rnddup=False,
+                   complete=False, zerod=False) for a in plan["arrays"]]
+    evs = [e for e in seqexec.map_events(plan, awrites) if e["arr"]]
+    return dict(plan=dict(ops=ops, arrays=arrays, resumed=False), events=evs)
+
+
 def run(chk, focus, files=None, jobs=8):
     """Returns a summary dict; reports violations through chk."""
     files = files or (THOROUGH_FILES if chk.tier == "thorough" else QUICK_FILES)
@@ -46,23 +59,31 @@ def run(chk, focus, files=None, jobs=8):
             errs += open(p).read().splitlines()
         docs, metas = [], []
         skipped = 0
+        module = "TaskTrace" if focus in ("C05", "C12") else "DagTrace"
         for p in sorted(glob.glob(os.path.join(base, "docs", "*.json"))):
             d = json.load(open(p))
             if d["meta"]["raised"]:
                 skipped += 1
                 continue
-            docs.append(d["doc"])
+            if module == "TaskTrace":
+                doc = write_doc(d["plan"], d["awrites"])
+                if not doc["events"]:
+                    continue
+                d["meta"]["nstore"] = len(doc["events"])
+                docs.append(doc)
+            else:
+                docs.append(d["doc"])
             metas.append(d["meta"])
         if not docs:
             raise MachineryError("the recorder produced no computation documents: " + out[-1500:])
         order = sorted(range(len(docs)), key=lambda i: -len(docs[i]["events"]))
         docs = [docs[i] for i in order]
         metas = [metas[i] for i in order]
-        verdicts, results = validate_traces_parallel("DagTrace", docs, constants=dict(Focus=focus), batch=25, jobs=8)
+        verdicts, results = validate_traces_parallel(module, docs, constants=dict(Focus=focus), batch=25, jobs=8)
         for n, r in enumerate(results):
-            chk.add_tlc(f"DagTrace[{focus}]/suite-batch{n}", r)
+            chk.add_tlc(f"{module}[{focus}]/suite-batch{n}", r)
         if len(verdicts) != len(docs):
-            raise MachineryError(f"DagTrace returned {len(verdicts)} verdicts for {len(docs)} suite traces")
+            raise MachineryError(f"{module} returned {len(verdicts)} verdicts for {len(docs)} suite traces")
         bad = 0
         for i, m in enumerate(metas):
             v, pos = verdicts[i + 1]
@@ -89,5 +110,6 @@ def run(chk, focus, files=None, jobs=8):
 if __name__ == "__main__":
     from harness.core import Check
     c = Check("C07", sys.argv[1] if len(sys.argv) > 1 else "quick", 0)
-    print(json.dumps(run(c, "all"), indent=1))
+    foc = sys.argv[2] if len(sys.argv) > 2 else "all"
+    print(json.dumps(run(c, foc, files=sys.argv[3:] or None), indent=1))
     print(c.violations[:5])
